@@ -1,4 +1,5 @@
-// Correspondence harness for module v2 of akramarenkov/cqos.
+// Correspondence harness for akramarenkov/cqos (this file is shared by harness/v1 and harness/v2; it is copied
+// into the module directory when the harness is built).
 //
 // Reads scenarios (one per line: family followed by integer arguments, the same encoding the Coq model's
 // Run.run decodes), executes each one on the real library code and appends one result line per scenario:
@@ -93,14 +94,5 @@ func TestHarness(t *testing.T) {
 		fmt.Fprintf(out, "%d begin\n", index)
 		res := dispatch(t, sc)
 		fmt.Fprintf(out, "%d %s %s\n", index, res.verdict, strings.Join(res.vals, " "))
-	}
-}
-
-func dispatch(t *testing.T, sc scenario) result {
-	switch sc.int(0) {
-	case 1:
-		return runRate(sc)
-	default:
-		return result{verdict: "unknown-family"}
 	}
 }
